@@ -24,6 +24,59 @@ def _norm(t):
     return re.sub(r'\s+', ' ', t).strip()
 
 
+def _strip_comments(t):
+    return re.sub(r'//[^\n]*', '', t)
+
+
+def _enum_tables(b, enum):
+    """variants (declaration order), `to_byte` (byte per variant) and `from_byte` (explicit arms + the `_` arm) of one
+    of the four header-mode enums of src/buffers.rs.  Anything but the plain `match` shape makes the translation fail."""
+    m = re.search(r'pub enum ' + enum + r' \{(.*?)\n\}', b, re.S)
+    if not m:
+        raise ExtractError(f'enum {enum} not found')
+    body = re.sub(r'///[^\n]*', '', m.group(1))
+    variants = [v.strip() for v in _strip_comments(body).split(',') if v.strip()]
+    if not variants or not all(re.fullmatch(r'[A-Za-z0-9_]+', v) for v in variants):
+        raise ExtractError(f'enum {enum}: variants are not plain identifiers: {variants}')
+    m = re.search(r'impl ' + enum + r' \{(.*?)\n\}', b, re.S)
+    if not m:
+        raise ExtractError(f'impl {enum} not found')
+    impl = m.group(1)
+    # from_byte
+    m = re.search(r'pub fn from_byte\(b: u8\) -> Self \{\s*match b \{(.*?)\}\s*\}', impl, re.S)
+    if not m:
+        raise ExtractError(f'{enum}::from_byte is no longer `match b {{ … }}`')
+    arms_txt = _strip_comments(m.group(1))
+    arms = re.findall(r'(\d+|_)\s*=>\s*' + enum + r'::([A-Za-z0-9_]+)\s*,', arms_txt)
+    left = re.sub(r'(\d+|_)\s*=>\s*' + enum + r'::([A-Za-z0-9_]+)\s*,', '', arms_txt).strip()
+    if left:
+        raise ExtractError(f'{enum}::from_byte has arms of another shape: {left[:80]}')
+    if not arms or arms[-1][0] != '_' or any(a[0] == '_' for a in arms[:-1]):
+        raise ExtractError(f'{enum}::from_byte: expected exactly one `_` arm, in last position')
+    for _, v in arms:
+        if v not in variants:
+            raise ExtractError(f'{enum}::from_byte names the unknown variant {v}')
+    explicit = [(int(a), variants.index(v)) for a, v in arms[:-1]]
+    if any(a > 255 for a, _ in explicit):
+        raise ExtractError(f'{enum}::from_byte: arm beyond u8')
+    dflt = variants.index(arms[-1][1])
+    # to_byte
+    m = re.search(r'pub fn to_byte\(self\) -> u8 \{\s*match self \{(.*?)\}\s*\}', impl, re.S)
+    if not m:
+        raise ExtractError(f'{enum}::to_byte is no longer `match self {{ … }}`')
+    tb_txt = _strip_comments(m.group(1))
+    tb = re.findall(enum + r'::([A-Za-z0-9_]+)\s*=>\s*(\d+)\s*,', tb_txt)
+    left = re.sub(enum + r'::([A-Za-z0-9_]+)\s*=>\s*(\d+)\s*,', '', tb_txt).strip()
+    if left:
+        raise ExtractError(f'{enum}::to_byte has arms of another shape: {left[:80]}')
+    if sorted(v for v, _ in tb) != sorted(variants):
+        raise ExtractError(f'{enum}::to_byte does not list every variant exactly once')
+    to_byte = [int(dict(tb)[v]) for v in variants]
+    if any(x > 255 for x in to_byte):
+        raise ExtractError(f'{enum}::to_byte: value beyond u8')
+    return variants, to_byte, explicit, dflt
+
+
 def gen_icy():
     s = src('src/formats/icy_draw.rs')
     a = src('src/text_attribute.rs')
@@ -79,6 +132,30 @@ def gen_icy():
     if not m:
         raise ExtractError('colour alpha byte of the writer not found')
     out.append(f'def colorAlphaByte : Nat := {_int(m.group(1))}\n')
+
+    # ---- the four header-mode enums (src/buffers.rs): variants, to_byte, from_byte — and the calls of the ICED code
+    b = src('src/buffers.rs')
+    for enum, lean, field, wr in [('BufferType', 'bufferType', 'buffer_type', r'result\.extend\(u16::to_le_bytes\(buf\.buffer_type\.to_byte\(\) as u16\)\);'),
+                                  ('IceMode', 'iceMode', 'ice_mode', r'result\.push\(buf\.ice_mode\.to_byte\(\)\);'),
+                                  ('PaletteMode', 'paletteMode', 'palette_mode', r'result\.push\(buf\.palette_mode\.to_byte\(\)\);'),
+                                  ('FontMode', 'fontMode', 'font_mode', r'result\.push\(buf\.font_mode\.to_byte\(\)\);')]:
+        variants, to_byte, explicit, dflt = _enum_tables(b, enum)
+        out.append(f'/-- `{enum}`: variants in declaration order; `to_byte` per variant; explicit arms (byte, variant) and `_` arm of `from_byte` -/\n')
+        out.append(f'def {lean}Variants : List String := [' + ', '.join(json.dumps(v) for v in variants) + ']\n')
+        out.append(f'def {lean}ToByte : List Nat := [' + ', '.join(map(str, to_byte)) + ']\n')
+        out.append(f'def {lean}FromArms : List (Nat × Nat) := [' + ', '.join(f'({a}, {v})' for a, v in explicit) + ']\n')
+        out.append(f'def {lean}FromDefault : Nat := {dflt}\n')
+        if not re.search(wr, s):
+            raise ExtractError(f'the ICED writer no longer stores {field} through {enum}::to_byte')
+        arg = r'buffer_type as u8' if enum == 'BufferType' else field
+        if not re.search(r'result\.' + field + r' = crate::' + enum + r'::from_byte\(' + arg + r'\);', s):
+            raise ExtractError(f'the ICED reader no longer sets {field} through {enum}::from_byte')
+    # `Buffer::new`: the modes a loaded buffer starts from
+    m = re.search(r'buffer_type: BufferType::(\w+),.*?ice_mode: IceMode::(\w+),.*?palette_mode: PaletteMode::(\w+),.*?font_mode: FontMode::(\w+),', b, re.S)
+    if not m:
+        raise ExtractError('initial modes of Buffer::new / create not found')
+    out.append('/-- the modes `Buffer::new` starts from (variant names) -/\n')
+    out.append('def initialModes : List String := [' + ', '.join(json.dumps(x) for x in m.groups()) + ']\n')
 
     # ---- chunk keywords used by writer and reader
     kws = sorted(set(re.findall(r'add_ztxt_chunk\((?:format!\()?"([A-Z_]+)', s)))
